@@ -80,3 +80,16 @@ int fx3_wfmt_fail_reset_s(wchar_t *dest, size_t dmax, const wchar_t *fmt, va_lis
     }
     return ret;
 }
+/* probe after a failed call with the same format: it fails as well or needs at least the capacity that was not enough */
+int fx3_wfmt_probe_s(wchar_t *dest, size_t dmax, const wchar_t *fmt, va_list ap, va_list ap2) {
+    int ret; wchar_t tmp[512];
+    if (dest == NULL || dmax == 0 || dmax > 500) { invoke_safe_str_constraint_handler("fx3_wfmt: bad", NULL, 400); return -400; }
+    if (fmt == NULL) { *dest = L'\0'; invoke_safe_str_constraint_handler("fx3_wfmt: fmt", NULL, 400); return -400; }
+    ret = vswprintf(dest, dmax, fmt, ap);
+    if (ret == -1) {
+        ret = vswprintf(tmp, 512, fmt, ap2);
+        if (ret > 0) { *dest = L'\0'; invoke_safe_str_constraint_handler("fx3_wfmt: too long", NULL, 406); return -406; }
+    }
+    if (ret < 0) { *dest = L'\0'; invoke_safe_str_constraint_handler("fx3_wfmt: error", NULL, 22); return ret; }
+    return ret;                 /* 0 <= ret < dmax only when the first call succeeded */
+}
